@@ -532,11 +532,16 @@ func bodyLen(d *Desc, v *Val) uint64 {
 
 // Trial is one experiment on the Case's type.
 type Trial struct {
-	Kind  string `json:"kind"`            // "value" (Marshal + round trip) | "bytes" (Unmarshal of Input)
+	Kind  string `json:"kind"`            // "value" (Marshal + round trip) | "bytes" (Unmarshal of Input) | "present"
 	Note  string `json:"note,omitempty"`  // how the trial was made (valid, invalid:<label>, enc+tail, mut:<op>, raw)
 	V     *Val   `json:"v,omitempty"`     // kind value
 	Input Hex    `json:"input,omitempty"` // kind bytes
 	Dirty bool   `json:"dirty,omitempty"` // decode into a destination that already holds another value
+	// kind "present": a top-level presentation (toplevel.go)
+	How     string `json:"how,omitempty"`
+	Params  string `json:"params,omitempty"`
+	Index   int    `json:"index,omitempty"`   // which unsupported Go type
+	NonZero bool   `json:"nonzero,omitempty"` // unsupported type: non-zero value
 }
 
 // Case is one generated type with a handful of trials.
@@ -579,6 +584,10 @@ func genValues(t *rapid.T) Case {
 			}
 		}
 		c.Trials = append(c.Trials, tr)
+	}
+	// top-level presentations of the value / of the decode target: error, never panic
+	for k := rapid.IntRange(1, 3).Draw(t, "npresent"); k > 0; k-- {
+		c.Trials = append(c.Trials, genPresentation(t, &c))
 	}
 	return c
 }
